@@ -4,6 +4,7 @@
 //! Request lines of one case (`case <n> <scaled> <track 0|1>`):
 //!   `d <hashes>`            append a dataset (id = position), answer `ok`
 //!   `q <hashes> <abunds>`   set the query (abunds `-` or one per hash), answer `ok`
+//!   (the four requests below may carry a trailing `@<case>` tag, ignored)
 //!   `gather <t>`            every field of every GatherResult (model column)
 //!   `cover <t>`             per match `name:unique overlap:f_match bits`            (spec column)
 //!   `stats <t>`             per match `rank:unique_bp:remaining_bp:f_unique bits`   (spec column)
@@ -11,6 +12,7 @@
 //! The index is a real `RevIndex::create` on a scratch directory, built once per case.
 use sourmash::index::revindex::{RevIndex, RevIndexOps};
 use sourmash::index::GatherResult;
+use sourmash::selection::Selection;
 use sourmash::signature::SigsTrait;
 use verif_harness::index_util::*;
 use verif_harness::*;
@@ -90,14 +92,20 @@ fn gen_case(r: &mut Rng, o: &mut Out) {
                 union(&union(&keep, &pick_k(r, &rest, inq.len() - keep.len())), &subset(r, &not_q, 1, 4))
             }
             (5, _) => subset(r, &not_q, 1, 2),                              // disjoint from the query
-            (6, _) => q.clone(),                                           // the query itself
+            (6, _) if r.chance(1, 3) => q.clone(),                         // the query itself
             (7, _) => subset(r, &q, 1, 2),                                  // inside the query
             (8, _) => {
                 // tiny
                 let k = r.range(1, 3) as usize;
                 pick_k(r, &uni, k)
             }
-            (9, _) => uni.clone(),                                         // everything
+            (9, _) if r.chance(1, 3) => uni.clone(),                       // everything
+            (6, _) | (9, _) | (10, _) | (11, _) if !q.is_empty() => {
+                // a contiguous chunk of the query (covers need several rounds) + strangers
+                let a = r.below(q.len() as u64) as usize;
+                let l = r.range(1, (q.len() as u64 / 2).max(1)) as usize;
+                union(&q[a..(a + l).min(q.len())], &subset(r, &not_q, 1, 5))
+            }
             _ => {
                 let num = r.range(1, 4);
                 subset(r, &uni, num, 5)
@@ -124,18 +132,20 @@ fn gen_case(r: &mut Rng, o: &mut Out) {
         show_nats(q.iter().copied()),
         if track { show_nats(ab.iter().copied()) } else { "-".into() }
     ));
+    // the trailing `@n` only names the collection the request is about (ignored by both sides)
+    let tag = format!("@{}", o.ncases - 1);
     for t in 0..=5u64 {
-        o.op(&format!("gather {}", t));
-        o.op(&format!("cover {}", t));
-        o.op(&format!("stats {}", t));
-        o.op(&format!("wstats {}", t));
+        o.op(&format!("gather {} {}", t, tag));
+        o.op(&format!("cover {} {}", t, tag));
+        o.op(&format!("stats {} {}", t, tag));
+        o.op(&format!("wstats {} {}", t, tag));
     }
     // a threshold at / next to the largest overlap, and one far above everything
     let best = ds.iter().map(|d| d.iter().filter(|h| q.contains(h)).count() as u64).max().unwrap_or(0);
     for t in [best.saturating_sub(1), best, best + 1, 1000] {
         if t > 5 {
-            o.op(&format!("gather {}", t));
-            o.op(&format!("cover {}", t));
+            o.op(&format!("gather {} {}", t, tag));
+            o.op(&format!("cover {} {}", t, tag));
         }
     }
 }
@@ -146,9 +156,9 @@ fn gen(a: &Args) {
     let n = if a.cases > 0 {
         a.cases
     } else if a.tier == "thorough" {
-        4000
+        6000
     } else {
-        200
+        500
     };
     for _ in 0..n {
         gen_case(&mut r, &mut o);
@@ -191,7 +201,8 @@ fn run_gather(s: &mut St, t: usize) -> Result<Vec<GatherResult>, String> {
     let qmh = make_mh(&s.q, if s.track { Some(&s.ab) } else { None }, s.scaled);
     assert_eq!(qmh.size(), s.q.len());
     let (counter, query_colors, hash_to_color) = idx.prepare_gather_counters(&qmh);
-    idx.gather(counter, query_colors, hash_to_color, t, &qmh, None)
+    // `None` would reach `CollectionSet::selection()`, which is `todo!()`; the value is unused by gather
+    idx.gather(counter, query_colors, hash_to_color, t, &qmh, Some(Selection::default()))
         .map_err(|e| format!("err {:?}", e))
 }
 
@@ -301,6 +312,19 @@ fn main() {
     match a.mode.as_str() {
         "gen" => gen(&a),
         "exec" => exec_loop(new_state, step),
+        "debug" => {
+            // like exec, but panics are printed
+            use std::io::BufRead;
+            let mut st = new_state();
+            for line in std::io::stdin().lock().lines() {
+                let line = line.unwrap();
+                let ws: Vec<&str> = line.split_whitespace().collect();
+                if ws.first() == Some(&"case") {
+                    st = new_state();
+                }
+                println!("{}", step(&mut st, &ws));
+            }
+        }
         _ => panic!("mode"),
     }
 }
